@@ -221,3 +221,10 @@ if __name__ == "__main__":
     if sys.argv[1] == "gen": gen()
     elif sys.argv[1] == "run": run(int(sys.argv[2]) if len(sys.argv) > 2 else 4, sys.argv[3] if len(sys.argv) > 3 else None)
     elif sys.argv[1] == "report": report()
+    elif sys.argv[1] == "forget-survivors":
+        # so that `run` tries them again against the current checks
+        rp = f"{ROOT}/results.jsonl"
+        keep = [l for l in open(rp) if json.loads(l)["status"] not in ("survived", "machinery")]
+        shutil.copy(rp, rp + ".before-rerun")
+        open(rp, "w").writelines(keep)
+        print("kept", len(keep))
